@@ -24,6 +24,13 @@ LEVEL = {
             "attempt = first crossing (complete spec), reset and fresh threshold, user thresholds first, inverse-CDF target slot of length g_j/G, "
             "hop-time law prod(1-p_i) p_k (Poisson equivalence), zero-rate steps never attempt. Tied to TrajectoryCum.hopper on driven sequences", "7 C09", NOTE,
             "Lean 4 theorems (list induction, Real.exp algebra) + sequence correspondence"),
+    "C18": ("proof", "Lean theorems for EVERY point count n and interval a<b: midpoint/trapezoid/Simpson have positive weights, strictly increasing nodes "
+            "in [a,b], weights summing to b-a and are exact to degree 1/1/3 (Simpson via a panel decomposition of the loop's 1,4,2,..,4,1 pattern, all odd n); "
+            "affine transport: a rule exact to degree d on [-1,1] is exact to degree d on [a,b] under the code's map (all polynomials), so Gauss-Legendre = "
+            "numpy leggauss contract + this theorem; counterexample theorem for the originally pinned weights*=0.5. Partial: Clenshaw-Curtis exactness "
+            "for all n is not proved (only its post-processing); CC and the leggauss contract are tested per n (2..64 quick, ..1024 thorough) in 60-digit "
+            "arithmetic. Spawn-stack tensor structure: oracle on the implementation (theorem with the SpawnStack model, C10)", "7 C18", NOTE,
+            "Lean 4 theorems (Finset sums, induction on panels, Polynomial.comp + integral substitution) + correspondence for all five rules"),
     "C20": ("proof", "Lean theorems at R/C about the model of poisson_prob_scale (value at 0, exact closed form outside the switch, "
             "series within |x|^5/600 inside it for real and complex x, strictly decreasing on [0,inf) across the switch, range (0,1]); "
             "model tied to the code by bit-level correspondence (4e-15) on boundary-directed scalars; float accuracy of libm is partial "
